@@ -7,6 +7,7 @@
    Method: every bincode primitive is simulated by a pure parser (value, bytes consumed); the
    invariant is  position + limit left  never increases (each primitive charges before it
    reads), and is preserved exactly on success. *)
+From MLA Require Import Limit.
 From MLA Require Import Base Stream Format Archive HeaderStream.
 From Coq Require Import ZifyBool ZifyNat ZifyN.
 Open Scope N_scope.
@@ -200,6 +201,7 @@ Qed.
 
 (* ---------- stream side ---------- *)
 Section Sim.
+  Context {LIM : Limit}.
   Variable S : Stream.
   Variable b : bytes.
   Variable R : st S -> N -> Prop.
